@@ -50,8 +50,10 @@ class Ctx:
     # ------------------------------------------------------------------ TLC model checking
     def tlc_mc(self, name, cfg=None, workers=None, timeout=3600, extra=()):
         """Run spec/mc/<name>.tla with <cfg>; returns list of CASE objects printed by the model."""
+        return self.tlc_mc_path(name, os.path.join(ROOT, "spec", "mc", (cfg or name) + ".cfg"), workers, timeout, extra)
+
+    def tlc_mc_path(self, name, cfg, workers=None, timeout=3600, extra=(), quiet=False):
         tla = os.path.join(ROOT, "spec", "mc", name + ".tla")
-        cfg = os.path.join(ROOT, "spec", "mc", (cfg or name) + ".cfg")
         workers = workers or (4 if self.tier == "quick" else 8)
         out = os.path.join(self.dir, f"mc_{os.path.basename(cfg)}.out")
         t = time.time()
